@@ -673,3 +673,40 @@ def ctor_prefix_clause(ctx, res, prop, cid, root_name, floor=1):
                                 k.name, ', '.join(op), ', '.join(bp), next((b_ for b_, o_ in zip(bp, op) if b_ != o_), bp[-1] if bp else '?'),
                                 next((o_ for b_, o_ in zip(bp, op) if b_ != o_), '?'))))
     return c
+
+
+
+def exit_never_swallows_clause(ctx, res, prop, cid, floor=1):
+    """context managers of the package let exceptions through: `__exit__` returns nothing / False on every path (a truthy return value
+    suppresses whatever was raised in the `with` block - every caller's error handling silently stops working)"""
+    from ..report import Finding
+    c = res.clause(cid, 'R-CONTAIN', 'no __exit__ of the package returns a truthy value (exceptions of the with block propagate)', floor=floor)
+    for k in ctx.repo.all_classes():
+        ex = k.methods.get('__exit__')
+        if ex is None:
+            continue
+        bad = [r for r in walk_own(ex.node) if isinstance(r, ast.Return) and r.value is not None and
+               not (isinstance(r.value, ast.Constant) and r.value.value in (None, False))]
+        c.instance('%s.__exit__ returns None / False' % k.name, ex.qualname, not bad)
+        c.evaluations += 1
+        for r in bad[:1]:
+            res.add(Finding(prop, cid, 'R-CONTAIN', ex.file, ex.qualname, r.lineno, norm(r)[:100],
+                            '%s.__exit__ returns `%s`: a truthy value tells Python to suppress the exception raised inside the with block, so a failing '
+                            'step wrapped in `with %s()` is taken for a success by the code that follows' % (k.name, norm(r.value)[:60], k.name)))
+    return c
+
+
+def shared_class_objects(cls, ctor_names=('Event', 'Lock', 'RLock', 'Queue', 'Condition', 'Semaphore', 'Counter', 'defaultdict', 'OrderedDict', 'deque', 'dict', 'list', 'set')):
+    """class-level attributes bound to one mutable / synchronisation object that instances use through `self.<name>` without rebinding it in
+    __init__: every instance shares the one object. Returns [(assign node, name)]"""
+    init = cls.methods.get('__init__')
+    inits = {self_attr(t) for n in ast.walk(init.node) if isinstance(n, ast.Assign) for t in n.targets if self_attr(t)} if init is not None else set()
+    out = []
+    for st_ in cls.node.body:
+        if isinstance(st_, ast.Assign) and len(st_.targets) == 1 and isinstance(st_.targets[0], ast.Name):
+            v = st_.value
+            mutable = isinstance(v, (ast.List, ast.Dict, ast.Set)) or (isinstance(v, ast.Call) and norm(v.func).split('.')[-1] in ctor_names)
+            nm = st_.targets[0].id
+            if mutable and nm not in inits and any(isinstance(x, ast.Attribute) and self_attr(x) == nm for m in cls.methods.values() for x in ast.walk(m.node)):
+                out.append((st_, nm))
+    return out
